@@ -150,7 +150,12 @@ func ruleMappingPairing(c *Ctx, t *tables, node string, pe *printerEvents, facts
 				types_[k] = true
 			}
 		}
-		next := g.nextVisible(e, func(x *pev) bool { return false })
+		// a kept request (deferred idiom, R8.3) is recorded by the next text writer call: layout, comment replay and
+		// the terminator request append with the emit primitives and leave it pending
+		deferred := c.mappingDeferred()
+		next := g.nextVisible(e, func(x *pev) bool {
+			return deferred && (x.kind == evLayout || x.kind == evComments || x.kind == evTerm)
+		})
 		if len(next) == 0 {
 			c.bad(key, e.pos, "nothing is written after the mapping")
 			return
@@ -192,6 +197,24 @@ func ruleMappingPairing(c *Ctx, t *tables, node string, pe *printerEvents, facts
 			c.ok(key, e.pos, "followed on every path by the text of %s (%s)", e.field, tokSetNames(t.tc, types_))
 		}
 	})
+}
+
+// mappingDeferred: AddMapping keeps the request instead of calling the mapper itself (see R8.3).
+func (c *Ctx) mappingDeferred() bool {
+	c.buildSSA()
+	f := c.fn("(*ast.CodeWriter).AddMapping")
+	if f == nil {
+		return false
+	}
+	direct := false
+	allInstrs(f, func(_ *ssa.BasicBlock, _ int, in ssa.Instruction) {
+		if call, ok := in.(*ssa.Call); ok {
+			if cal := call.Call.StaticCallee(); cal != nil && pkgPathOf(cal) == modPath+"/sourcemap" {
+				direct = true
+			}
+		}
+	})
+	return !direct
 }
 
 // textIsTokenText: the non-constant text written after a mapping is the mapped token's own text.
@@ -496,6 +519,45 @@ func ruleBytesAccounted(c *Ctx) {
 		}
 	}
 	// the text writers: exported writer methods that hand their own parameter to a buffer-appending helper
+	textWriters := map[*ssa.Function]bool{}
+	for _, f := range c.libFunctions("ast") {
+		if f.Signature.Recv() == nil || !namedIs(f.Signature.Recv().Type(), "ast", "CodeWriter") || len(f.Params) != 2 || f.Object() == nil || !f.Object().Exported() {
+			continue
+		}
+		allInstrs(f, func(_ *ssa.BasicBlock, _ int, in ssa.Instruction) {
+			if call, ok := in.(*ssa.Call); ok {
+				if cal := call.Call.StaticCallee(); cal != nil && cal.Pkg == f.Pkg && len(call.Call.Args) == 2 && call.Call.Args[1] == ssa.Value(f.Params[1]) && reachesEmit[cal] {
+					textWriters[f] = true
+				}
+			}
+		})
+	}
+	if !immediate {
+		// a kept request belongs to the next text a PRINTER writes: comment replay, layout and the terminator request
+		// must neither record it nor write through the text writers (which would record it in front of their own text)
+		semiW := c.fn("(*ast.CodeWriter).WriteSemi")
+		clean := true
+		for _, f := range c.libFunctions("ast") {
+			if f.Signature.Recv() == nil || !namedIs(f.Signature.Recv().Type(), "ast", "CodeWriter") || textWriters[f] || f == semiW {
+				continue
+			}
+			allInstrs(f, func(_ *ssa.BasicBlock, _ int, in ssa.Instruction) {
+				call, ok := in.(*ssa.Call)
+				if !ok {
+					return
+				}
+				cal := call.Call.StaticCallee()
+				if cal == nil || !(textWriters[cal] || (callsMapperAdd(cal) && cal.Pkg == f.Pkg)) {
+					return
+				}
+				clean = false
+				c.bad(fmt.Sprintf("%s: calls %s", fnName(f), cal.Name()), call.Pos(), "a writer method that is not a text writer records the kept mapping or writes through a text writer: the segment requested for the next token is recorded in front of a comment, layout or separator instead")
+			})
+		}
+		if clean {
+			c.ok("kept request is recorded only by the text writers", token.NoPos, "comment replay, layout and terminator methods append with the emit primitives")
+		}
+	}
 	for _, f := range c.libFunctions("ast") {
 		if f.Signature.Recv() == nil || !namedIs(f.Signature.Recv().Type(), "ast", "CodeWriter") || len(f.Params) != 2 || f.Object() == nil || !f.Object().Exported() {
 			continue
@@ -747,6 +809,38 @@ func rulePostPassPositions(c *Ctx, t *tables) {
 				c.unres(key, call.Pos(), "effect on recorded positions not classified")
 			}
 		})
+	}
+	// the post-pass keeps the line structure: what it returns is the Join of the very slice Split produced (elements
+	// may be rewritten in place), so no line is dropped, added or reordered after generated lines were recorded
+	for _, pf := range passes {
+		var splits, joins []*ssa.Call
+		allInstrs(pf, func(_ *ssa.BasicBlock, _ int, in ssa.Instruction) {
+			if call, ok := in.(*ssa.Call); ok {
+				if cal := call.Call.StaticCallee(); cal != nil && pkgPathOf(cal) == "strings" {
+					switch {
+					case strings.HasPrefix(cal.Name(), "Split"):
+						splits = append(splits, call)
+					case cal.Name() == "Join":
+						joins = append(joins, call)
+					}
+				}
+			}
+		})
+		key := fmt.Sprintf("%s: line structure preserved", fnName(pf))
+		switch {
+		case len(splits) == 0 && len(joins) == 0:
+			c.ok(key, pf.Pos(), "the post-pass does not take the text apart")
+		case len(splits) == 1 && len(joins) == 1 && joins[0].Call.Args[0] == ssa.Value(splits[0]):
+			sepS, ok1 := constText(splits[0].Call.Args[1])
+			sepJ, ok2 := constText(joins[0].Call.Args[1])
+			c.check(ok1 && ok2 && sepS == sepJ, key, joins[0].Pos(), fmt.Sprintf("joins the slice it split, with the same separator %q", sepS), "the text is split and joined with different separators: line breaks are added or removed after generated lines were recorded")
+		default:
+			pos := pf.Pos()
+			if len(joins) > 0 {
+				pos = joins[0].Pos()
+			}
+			c.bad(key, pos, "the post-pass joins something other than the slice it obtained by splitting (lines can be dropped, added or merged): every segment behind such a line has a generated line that no longer matches the code")
+		}
 	}
 	if !startTrim {
 		return
